@@ -6,7 +6,6 @@ import (
 	"os"
 	"strings"
 
-	"github.com/lianxiangcloud/linkchain/libs/common"
 	"github.com/lianxiangcloud/linkchain/state"
 
 	"verif/sim/simdb"
@@ -127,5 +126,3 @@ func (w *world) lifeOracle(h uint64, insts []lifeInst, items []*txgen.Item) bool
 	}
 	return !c.Failed()
 }
-
-var _ = common.Address{}
